@@ -653,6 +653,59 @@ def rule_R26_option_tests(text, log):
 
 
 
+def rule_R27_map_collect(text, log):
+    """`let X: Vec<T> = RECV.iter().map(|P| BODY).collect();`  ->  `let mut X: Vec<T> = Vec::new(); for P in RECV.iter() { X.push(BODY); }`
+    (definition of map + collect into a Vec)"""
+    out = text
+    rx = re.compile(r'let\s+([A-Za-z_]\w*)\s*:\s*(Vec\s*<[^=;]*>)\s*=\s*')
+    pos = 0
+    while True:
+        mask = code_mask(out)
+        mm = next((m for m in rx.finditer(out) if m.start() >= pos and mask[m.start()]), None)
+        if not mm:
+            return out
+        # statement end
+        j = mm.end()
+        depth = 0
+        while j < len(out):
+            if mask[j]:
+                c = out[j]
+                if c in '([{':
+                    depth += 1
+                elif c in ')]}':
+                    depth -= 1
+                elif c == ';' and depth == 0:
+                    break
+            j += 1
+        stmt = out[mm.end():j]
+        m2 = re.match(r'^(.*?)\s*\.\s*iter\(\)\s*\.\s*map\s*\(\s*\|\s*([^|]+?)\s*\|(.*)\)\s*\.\s*collect\s*\(\s*\)\s*$', stmt, re.S)
+        if not m2:
+            pos = mm.end()
+            continue
+        recv = re.sub(r'\s*\.\s*', '.', norm_ws(m2.group(1)))
+        x, ty = mm.group(1), norm_ws(mm.group(2))
+        new = 'let mut %s: %s = Vec::new(); for %s in %s.iter() { %s.push(%s); }' % (x, ty, m2.group(2), recv, x, m2.group(3).strip())
+        pad = '\n' * max(0, out[mm.start():j + 1].count('\n') - new.count('\n'))
+        log.append(('R27', norm_ws(out[mm.start():j + 1])[:140], norm_ws(new)[:160]))
+        out = out[:mm.start()] + new + pad + out[j + 1:]
+        pos = mm.start() + len(new)
+
+
+def rule_R28_bitflags_or_assign(text, log):
+    """`X |= Flags::E;` -> `X.insert(Flags::E);` for the bitflags types of the repository (bitflags 2.x: BitOrAssign is insert)"""
+    out = text
+    rx = re.compile(r'(?<![\w.])([A-Za-z_]\w*)\s*\|=\s*((?:[A-Za-z_]\w*Flags)::[^;]+);')
+    while True:
+        mask = code_mask(out)
+        mm = next((m for m in rx.finditer(out) if mask[m.start()]), None)
+        if not mm:
+            return out
+        new = '%s.insert(%s);' % (mm.group(1), mm.group(2).strip())
+        log.append(('R28', norm_ws(mm.group(0)), new))
+        out = out[:mm.start()] + new + out[mm.end():]
+
+
+
 def rule_R5_labelled_for(text, log):
     """'l: for _ in 0..n { B }  ->  { let mut vx_i: usize = 0; 'l: while vx_i < n { vx_i += 1; B } }
     only for the shape `'l: for _ in 0..<ident> {` (counter unused)"""
@@ -689,9 +742,10 @@ R6_TABLE = [
     (r'(?<![\w.])topic\.is_empty\(\)', 'vx_str_is_empty(topic)'),
     (r'(?<![\w.])topic\.bytes\(\)', 'vx_str_bytes(topic)'),
     (r'&src\.as_ref\(\)\[0\.\.4\] == MQTT', 'vx_starts_with_mqtt(src)'),
-    (r'\bu8::from\(((?:self|will|pkt|publish)\.(?:no_local|retain_as_published|dup|retain|session_present))\)', r'vx_u8_from_bool(\1)'),
+    (r'\bu8::from\(((?:[a-z_]\w*\.)+(?:no_local|retain_as_published|dup|retain|session_present))\)', r'vx_u8_from_bool(\1)'),
     (r'Box<dyn Fn\(([^()]*)\)>', r'VxBoxFn<(\1)>'),
     (r'\.map_or\(0, \|v\| 1 \+ v\.encoded_size\(\)\)', '.vx_map_or_0_1_plus_encoded_size()'),
+    (r'\b(?:MQTT|b"MQTT")\.as_ref\(\)\.encode\((\w+)\)', r'vx_encode_mqtt(\1)'),
 ]
 
 
@@ -727,6 +781,29 @@ def rule_R11_drain(text, log):
             raise Unsupported('R11: drain loop body with early exit')
         new = 'while let Some(%s) = %s.pop_front() {' % (mm.group(1), mm.group(2))
         log.append(('R11', norm_ws(mm.group(0)), new))
+        out = out[:mm.start()] + new + out[mm.end():]
+
+
+def rule_R14b_for_ref_tuple(text, log):
+    """for &(ref a, b) in E { B }  ->  for vx_r in E { let a = &vx_r.0; let b = vx_r.1; B }   (definition of the pattern)"""
+    out = text
+    rx = re.compile(r'\bfor\s+&\s*\(([^()]*)\)\s+in\s+([^{]+?)\s*\{')
+    while True:
+        mask = code_mask(out)
+        mm = next((m for m in rx.finditer(out) if mask[m.start()]), None)
+        if not mm:
+            return out
+        parts = [q.strip() for q in mm.group(1).split(',') if q.strip()]
+        lets = []
+        for k, q in enumerate(parts):
+            m2 = re.match(r'^(ref\s+)?(mut\s+)?([A-Za-z_]\w*)$', q)
+            if not m2:
+                raise Unsupported('R14: tuple pattern element `%s`' % q)
+            if m2.group(3) == '_':
+                continue
+            lets.append('let %s = %svx_r.%d;' % (m2.group(3), '&' if m2.group(1) else '', k))
+        new = 'for vx_r in %s { %s' % (mm.group(2), ' '.join(lets))
+        log.append(('R14', norm_ws(mm.group(0)), new))
         out = out[:mm.start()] + new + out[mm.end():]
 
 
@@ -1114,7 +1191,7 @@ class Unit(object):
         self.lost_aids = []
         self.gone_fns = []
         self.late_hints = False
-        self.rules = set(['R1', 'R2', 'ATTR', 'R4', 'R5', 'R6', 'R10', 'R11', 'R14', 'R15', 'R17', 'R22', 'R23', 'R25', 'R26'])
+        self.rules = set(['R1', 'R2', 'ATTR', 'R4', 'R5', 'R6', 'R10', 'R11', 'R14', 'R15', 'R17', 'R22', 'R23', 'R25', 'R26', 'R27', 'R28'])
         self.unit_props = []
         self.lemmas = []
         self.tmpl_fns = []          # hand-written exec/proof fns in template (name, props)
@@ -1168,6 +1245,7 @@ class Unit(object):
             if 'R11' in self.rules:
                 text = rule_R11_drain(text, log)
             if 'R14' in self.rules:
+                text = rule_R14b_for_ref_tuple(text, log)
                 text = rule_R14_for_ref_pattern(text, log)
             if 'R15' in self.rules:
                 text = rule_R15_or_pattern_ref_mut(text, log)
@@ -1185,6 +1263,10 @@ class Unit(object):
                 text = rule_R25_filter_count(text, log)
             if 'R26' in self.rules:
                 text = rule_R26_option_tests(text, log)
+            if 'R27' in self.rules:
+                text = rule_R27_map_collect(text, log)
+            if 'R28' in self.rules:
+                text = rule_R28_bitflags_or_assign(text, log)
         self.last_guard_renames = [r[3] for r in log if len(r) > 3]
         for r in log:
             self.rule_log.append({'rule': r[0], 'before': r[1], 'after': r[2], 'where': ctx})
